@@ -611,7 +611,8 @@ def rule_ord(ctx):
                 'new_debug', 'new', 'panic_fmt', 'filter_map', 'cloned', 'copied', 'as_ref', 'get_outgoing_edge_data', 'get_outgoing_edges'}
     chain_fns = [F.body_by_path(G + 'get_outgoing_edge_data'), F.body_by_path(G + 'get_outgoing_edges'), getattr(ctx.roles, 'deps_from', None)]
     for b in [x for x in chain_fns if x is not None]:
-        bad = sorted({c.name for x in F.with_closures(b) for c in x.calls.values() if c.name not in ORDER_OK and not x.blocks[c.bb]['cleanup']})
+        bad = sorted({c.name for x in F.with_closures(b) for c in x.calls.values() if c.name not in ORDER_OK and not x.blocks[c.bb]['cleanup']
+                      and F.accessor_summary(c) is None})  # a field accessor (`node.as_node()`) is not an adaptor
         R.ob('ORD-3-chain', b.path, not bad, 'the edges are handed out in adjacency order (no re-ordering adaptor in the chain)' if not bad
              else 'the iterator chain applies %s: dependencies may be validated out of creation order' % bad, ctx.where(b), props=('C02', 'C11', 'C16'))
     # ORD-3: the getters used for validation order read `children`
